@@ -46,6 +46,10 @@ def run(ctx):
     exprs, plans = [], []
     for n in range(n_ds):
         d = gen.any_dataset(rng, 'cf1d', ny=10, nx=20) if n == 0 else gen.any_dataset(rng)
+        if n == 2:
+            # an Arakawa C grid whose face longitude is stored (i, j) while the face latitude is stored (j, i)
+            d = gen.arakawa(rng, nj=3, ni=4, holes='none', invalid=False, transposed_coords=('x_centre',))
+            ctx.count('face longitude stored with its dimensions the other way round')
         if n % 3 == 1:
             # grid dimensions carrying index coordinates with unsorted labels: cells are addressed by position
             d.ds = gen.label_dimensions(rng, d.ds, [x for k in d.spec['kinds'].values() for x in k])
